@@ -1528,18 +1528,20 @@ pub fn check_fired(name: &str, pre: &Snap, post: &Snap) -> RefResult {
         }
         "LIST.SET" => {
             let idx = e.i.remove(0);
-            if pre.c.is_empty() {
-                return Ok(()); // addresses no record: outside the statement, not judged
-            }
             let k = clamp(idx, e.c.len());
             let ids = e.iv.remove(0);
+            // the state with only the two operands taken (index and id vector), the members still on their stacks
+            let operands_only = e.clone();
             let items = load_items_ref(&mut e, &ids);
-            if k < e.c.len() {
+            if !pre.c.is_empty() && k < e.c.len() {
                 e.c[k] = SItem::List(items);
+                return mism(&e, post);
             }
-            // else: the addressed position was itself consumed as a list member - the guard fails after the
-            // operands were taken: the items are gone, nothing is pushed or replaced (C10: "it pushes nothing")
-            mism(&e, post)
+            // The guard fails: CODE is empty (no record is addressed), or the addressed position was itself
+            // consumed as a list member. C10: the instruction "may at most have consumed operands it had already
+            // taken" and "pushes nothing" - so the members are gone (what the pinned tree does) or still in place
+            // (an implementation that tests first); nothing is pushed or replaced either way.
+            any_of(&[e, operands_only], post)
         }
         "LIST.REMOVE" => {
             let idx = e.i.remove(0);
